@@ -651,10 +651,11 @@ func init() {
 			}})
 		}
 	}
-	// 8. interface methods whose modifiers / own type-parameter list stand on the line ABOVE the return type: the
+	// 8. methods whose keyword modifiers / own type-parameter list stand on the line ABOVE the return type: the
 	// declaration starts on that upper line, so the length is measured from there and every method-level finding names it
 	for _, d := range offs() {
-		for _, v := range []string{"methodLen/iface-default", "methodLen/iface-static/generic", "params/iface-abstract/generic", "params/iface-default", "topIfs/iface-default/generic"} {
+		for _, v := range []string{"methodLen/iface-default", "methodLen/iface-static/generic", "params/iface-abstract/generic", "params/iface-default", "topIfs/iface-default/generic",
+			"methodLen/class", "params/static/generic"} {
 			d, v := d, v
 			points = append(points, point{v[:strIndex(v, "/")] + ":" + tagOff(d) + v[strIndex(v, "/"):] + "/modifiers-on-previous-line", func(g *gen) *classSpec {
 				form := "iface-default"
@@ -663,6 +664,10 @@ func init() {
 					form = "iface-static"
 				case strContains(v, "iface-abstract"):
 					form = "iface-abstract"
+				case strContains(v, "/class"):
+					form = "class"
+				case strContains(v, "/static"):
+					form = "static"
 				}
 				ms := g.plain(form)
 				ms.split = true
@@ -691,7 +696,7 @@ func init() {
 					}
 					ms.body = g.mix(body)
 				}
-				return g.host("interface", false, ms)
+				return g.host(kindOf(form), false, ms)
 			}})
 		}
 	}
@@ -771,7 +776,7 @@ func (g *gen) richMethod(cs *classSpec) *methodSpec {
 	}
 	ms.varargs = ms.params > 0 && g.r.Chance(1, 6)
 	ms.generic = g.r.Chance(1, 10)
-	ms.split = cs.kind == "interface" && g.r.Chance(1, 4)
+	ms.split = g.r.Chance(1, 5)
 	ms.wrap = g.r.PickInt(0, 0, 1, 2)
 	if !ms.hasBody() {
 		return ms
@@ -939,6 +944,19 @@ func Rich(r *run.Rand) *Project {
 	{
 		m := g.accessorNamed(g.plain("class"))
 		m.body = g.mix([]stmtSpec{g.ifS(tCond+g.r.Range(0, 1), g.r.Bool()), g.ifS(tCond-1, false)})
+		ms = append(ms, m)
+	}
+	{
+		// both counters at or over the threshold in ONE method: two findings (one per kind of statement) on one line
+		m := g.plain("class")
+		var b []stmtSpec
+		for i, n := 0, tRepeat+g.r.Range(0, 2); i < n; i++ {
+			b = append(b, stmtSpec{kind: "if", h: 1, noBr: true, body: []stmtSpec{{kind: "simple", text: "acc++;"}}})
+		}
+		for i, n := 0, tRepeat+g.r.Range(0, 2); i < n; i++ {
+			b = append(b, stmtSpec{kind: "switch", deflt: true})
+		}
+		m.body = g.mix(b)
 		ms = append(ms, m)
 	}
 	// every third of them carries an accessor name (core keeps 9 ordinary methods: no class-level verdict is touched)
